@@ -189,7 +189,7 @@ Proof.
   intros IH qo r s I Hl. simpl. rewrite fx_unlink_true.
   destruct (inv_query _ _ I _ Hl) as [q [Hq Hnh]].
   destruct (detach_query_ok _ _ _ _ I (or_intror eq_refl) Hl Hq)
-    as [s1 [E1 [I1 [F1 [_ [_ [_ [_ [_ [_ [Hq1 [Hr1 O1]]]]]]]]]]]].
+    as [s1 [E1 [I1 [F1 [_ [_ [_ [_ [_ [_ [Hq1 [Hr1 [O1 _]]]]]]]]]]]]].
   apply safe_bind. eapply safe_of_run; [exact E1|].
   apply safe_bind. eapply safe_get_query; [exact (inv_heap _ _ I1)|exact Hq1|].
   apply safe_bind. simpl. eapply safe_mono; [apply (sp_invoke _ IH); auto|].
@@ -252,20 +252,26 @@ Proof.
 Qed.
 
 (* expect_* only consume the tape *)
-Lemma safe_expect (m : M unit) s (Q : unit -> state -> Prop) :
+Lemma safe_expect' (m : M unit) s (Q : unit -> state -> Prop) :
   (m = expect_TS \/ m = expect_TG \/ exists k, m = expect_TCL k) ->
-  (forall s1, core_eq s s1 -> st_scripts s1 = st_scripts s -> Q tt s1) -> safe m s Q.
+  (forall l, Q tt (set_tape l s)) -> safe m s Q.
 Proof.
   intros Hm HQ.
   assert (G : forall (g : tev -> M unit),
             (forall e s0, g e s0 = Ok (tt, s0) \/ exists z, g e s0 = Err z) -> safe (mbind pop g) s Q).
   { intros g Hg. apply safe_bind. apply safe_pop. intros e rest Et.
-    unfold safe. destruct (Hg e (set_tape rest s)) as [->|[z ->]]; auto.
-    apply HQ; [apply core_eq_set_tape|reflexivity]. }
+    unfold safe. destruct (Hg e (set_tape rest s)) as [->|[z ->]]; auto. }
   destruct Hm as [->|[->|[k ->]]]; unfold expect_TS, expect_TG, expect_TCL; apply G; intros e s0.
   - destruct e; try (right; eexists; reflexivity). left; reflexivity.
   - destruct e; try (right; eexists; reflexivity). left; reflexivity.
   - destruct e; try (right; eexists; reflexivity). destruct (Nat.eqb sock k); [left; reflexivity|right; eexists; reflexivity].
+Qed.
+
+Lemma safe_expect (m : M unit) s (Q : unit -> state -> Prop) :
+  (m = expect_TS \/ m = expect_TG \/ exists k, m = expect_TCL k) ->
+  (forall s1, core_eq s s1 -> st_scripts s1 = st_scripts s -> Q tt s1) -> safe m s Q.
+Proof.
+  intros Hm HQ. apply safe_expect'; auto. intros l. apply HQ; [apply core_eq_set_tape|reflexivity].
 Qed.
 
 Lemma requeue_conn_queries_step f : Specs f -> forall n co st s c, Inv s -> cell_of s co = Some (CConn c) -> ~ rooted s co ->
